@@ -641,8 +641,10 @@ func c15Aliasing(c *core.Ctx, pkg string) {
 			c.Decide(bad == "", "R15.7", "extended-name-owns-storage:"+key, c.Pos(a), "no second append to the same base while the result is in use, the base is not the caller's slice, and the result does not leave the goroutine", bad+": two names share one backing array and one of them is overwritten (wrong segment requested / wrong name announced / the caller's own name changed under it)")
 		}
 	}
-	c.Extra["name_appends_on_unowned_base"] = nApp
-	c.Floor("R15.7", "appends that build a name in std/object", nAll, 3)
+	c.Extra["name_appends_on_unowned_base:"+strings.TrimPrefix(pkg, core.ModPath+"/")] = nApp
+	if strings.HasSuffix(pkg, "/std/object") {
+		c.Floor("R15.7", "appends that build a name in std/object", nAll, 3)
+	}
 }
 
 func isLoadOfField(v ssa.Value) bool {
